@@ -26,7 +26,7 @@ def wrong_key(name):
     return key
 
 
-def make_world(sched, src_policy, dst_keys, accept, verbose=False, src_keys=None, extra_nodes=None):
+def make_world(sched, src_policy, dst_keys, accept, verbose=False, src_keys=None, extra_nodes=None, src_pki=None, dst_pki=None):
     ''' Source ``s`` (dtn://s/) applying ``src_policy`` and destination ``d``
     (dtn://d/) holding ``dst_keys``. '''
     nodes = {
@@ -35,6 +35,10 @@ def make_world(sched, src_policy, dst_keys, accept, verbose=False, src_keys=None
         'd': dict(node_id='dtn://d/', rx_routes=[['^dtn://d/.*$', 'deliver']], tx_routes=[['.*', 'dtn://s/', None, None]],
                   accept_after_verify=accept, security=dict(keys=dst_keys, policies=[])),
     }
+    if src_pki:
+        nodes['s']['security']['pki'] = src_pki
+    if dst_pki:
+        nodes['d']['security']['pki'] = dst_pki
     if extra_nodes:
         nodes.update(extra_nodes)
     return bp_net.BpHarness(dict(nodes=nodes), sched, verbose)
